@@ -1,4 +1,5 @@
 import Beetswap.Spec.ClientSpec
+import Beetswap.Proofs.ClientQueryStep
 /-!
 Proofs about query bookkeeping (C03, C13 client part, and the wantlist gate used by C01).
 The statements are used by `Props/` and must keep these exact statements.
@@ -9,31 +10,60 @@ open Std Beetswap.Client Beetswap.Wl Beetswap.Spec.ClientSpec
 /-- States reachable from the initial state, with all outputs emitted so far. -/
 def Reach (x : Sys) (outs : List Out) : Prop := ∃ ops, run {} ops = (x, outs)
 
+theorem reach_inv {x : Sys} {outs : List Out} (h : Reach x outs) : QInv x.s outs := by
+  obtain ⟨ops, ho⟩ := h
+  have hi := QInv.reach ops
+  rw [ho] at hi
+  exact hi
+
 /-! ### C03 -/
 
 /-- Every call to `get` returns a fresh id: the counter value, which then increases. -/
 theorem get_fresh (s : State) (k : Nat) (fits : Bool) :
     (get s k fits).2 = s.nextQuery ∧ (get s k fits).1.nextQuery = s.nextQuery + 1 := by
-  sorry
+  cases fits <;> simp [Client.get, pushTask]
 
 theorem nextQuery_mono (x : Sys) (op : Op) : x.s.nextQuery ≤ (step x op).1.s.nextQuery := by
-  sorry
+  cases op with
+  | connect p c => exact Nat.le_refl _
+  | closed p c =>
+    simp only [step]; unfold closed
+    split
+    · exact Nat.le_refl _
+    · dsimp only; split <;> exact Nat.le_refl _
+  | get k fits => simp only [step, get_nextQuery]; omega
+  | cancel q =>
+    simp only [step, cancel_eq]
+    exact Nat.le_of_eq ((cancelW_nextQuery _ _).trans (cancelA_nextQuery _ _)).symm
+  | complete n r =>
+    simp only [step]; unfold complete
+    split <;> exact Nat.le_refl _
+  | msg p hs ds bs => simp only [step, incoming_nextQuery]; exact Nat.le_refl _
+  | sending p st =>
+    simp only [step]; unfold sendingChanged
+    split <;> exact Nat.le_refl _
+  | tick ms => exact Nat.le_refl _
+  | drain pref => simp only [step, drain_nextQuery]; exact Nat.le_refl _
+  | takeNewBlocks => exact Nat.le_refl _
 
 /-- The bookkeeping invariant: a query is held at most once (as a running lookup, a waiter or a
 queued event), never after an event for it was emitted, and only if it was issued. -/
 theorem presence_bound (x : Sys) (outs : List Out) (h : Reach x outs) (q : Nat) :
     eventsFor outs q + presence x.s q ≤ 1 ∧
     (0 < eventsFor outs q + presence x.s q → q < x.s.nextQuery) := by
-  sorry
+  have hi := reach_inv h
+  exact ⟨hi.bound q, hi.issued q⟩
 
 /-- At most one event is ever emitted per query id … -/
 theorem at_most_one_event (ops : List Op) (q : Nat) : eventsFor (run {} ops).2 q ≤ 1 := by
-  sorry
+  have := (QInv.reach ops).bound q
+  omega
 
 /-- … and none for ids that were not issued. -/
 theorem only_issued (ops : List Op) (q : Nat) (h : 0 < eventsFor (run {} ops).2 q) :
     q < (run {} ops).1.s.nextQuery := by
-  sorry
+  apply (QInv.reach ops).issued q
+  omega
 
 /-- A CID present in the local blockstore is answered from it: the hit produces the response and
 touches neither the wantlist nor any peer's exchange state, so no wantlist entry is caused. -/
@@ -42,13 +72,15 @@ theorem hit_adds_no_want (s : State) (seq id q k d : Nat) (t : Task)
     (hs : t.st = TaskSt.done (StoreRes.hit d)) (ha : t.aborted = false) :
     (pollTask s seq id).2.2 = [Out.resp q d] ∧ (pollTask s seq id).1.wantlist = s.wantlist
       ∧ (pollTask s seq id).1.waiters = s.waiters ∧ (pollTask s seq id).1.peers = s.peers := by
-  sorry
+  unfold pollTask
+  rw [ht]
+  simp [ha, hk, hs]
 
 /-- A CID whose multihash does not fit yields exactly one queued `GetQueryError` and nothing else. -/
 theorem oversize_one_error (s : State) (k : Nat) :
     (get s k false).1.queue = s.queue ++ [Out.err s.nextQuery 0] ∧ (get s k false).1.tasks = s.tasks
       ∧ (get s k false).1.wantlist = s.wantlist ∧ (get s k false).1.waiters = s.waiters := by
-  sorry
+  simp [Client.get]
 
 /-- A failed blockstore lookup yields exactly one `GetQueryError` and no want. -/
 theorem lookup_error_one_error (s : State) (seq id q k : Nat) (t : Task)
@@ -56,12 +88,18 @@ theorem lookup_error_one_error (s : State) (seq id q k : Nat) (t : Task)
     (hs : t.st = TaskSt.done StoreRes.error) (ha : t.aborted = false) :
     (pollTask s seq id).2.2 = [Out.err q 1] ∧ (pollTask s seq id).1.wantlist = s.wantlist
       ∧ (pollTask s seq id).1.waiters = s.waiters := by
-  sorry
+  unfold pollTask
+  rw [ht]
+  simp [ha, hk, hs]
 
 /-- After `cancel q` the state no longer holds `q` unless its event is already queued … -/
 theorem cancel_releases (x : Sys) (outs : List Out) (h : Reach x outs) (q : Nat)
     (hq : x.s.queue.filter (aboutQuery q) = []) : presence (cancel x.s q) q = 0 := by
-  sorry
+  have hi := reach_inv h
+  obtain ⟨hA, a1, _, a3, a4, _, _⟩ := cancelA_spec hi q
+  obtain ⟨_, b1, _, b3, b4, _⟩ := cancelW_spec hA q
+  rw [cancel_eq, presence_eq, b1, b3, b4, a1, a4]
+  simpa [eventsFor] using hq
 
 /-- … so a query cancelled before its answer reached the node yields no event, ever. -/
 theorem cancel_silences (ops1 ops2 : List Op) (q : Nat)
@@ -69,24 +107,62 @@ theorem cancel_silences (ops1 ops2 : List Op) (q : Nat)
     (h0 : eventsFor (run {} ops1).2 q = 0)
     (hq : (run {} ops1).1.s.queue.filter (aboutQuery q) = []) :
     eventsFor (run (step (run {} ops1).1 (Op.cancel q)).1 ops2).2 q = 0 := by
-  sorry
+  have hi := QInv.reach ops1
+  have hr : Reach (run {} ops1).1 (run {} ops1).2 := ⟨ops1, rfl⟩
+  have hp := cancel_releases _ _ hr q hq
+  have hc : QInv (step (run {} ops1).1 (Op.cancel q)).1.s (run {} ops1).2 := by
+    simpa [step] using hi.cancel q
+  have hn : (step (run {} ops1).1 (Op.cancel q)).1.s.nextQuery = (run {} ops1).1.s.nextQuery := by
+    simp only [step, cancel_eq]
+    exact (cancelW_nextQuery _ _).trans (cancelA_nextQuery _ _)
+  -- account for `q` as if its event had been emitted already
+  have hc' : QInv (step (run {} ops1).1 (Op.cancel q)).1.s ((run {} ops1).2 ++ [Out.err q 0]) := by
+    have hp' : presence (step (run {} ops1).1 (Op.cancel q)).1.s q = 0 := hp
+    constructor
+    · intro q'
+      have := hc.bound q'
+      simp only [eventsFor_append, eventsFor_err]
+      by_cases e : q = q'
+      · subst e; simp; omega
+      · simp [e]; omega
+    · intro q'
+      have := hc.issued q'
+      simp only [eventsFor_append, eventsFor_err]
+      by_cases e : q = q'
+      · subst e; intro _; omega
+      · simp [e]; omega
+    · exact hc.ids_nodup
+    · exact hc.ids_lt
+    · exact hc.abort_task
+    · exact hc.task_abort
+    · exact hc.want_iff
+    · exact hc.nonempty
+    · exact hc.queue_ev
+  have := (hc'.run ops2).bound q
+  simp only [eventsFor_append, eventsFor_err] at this
+  simp at this
+  omega
 
 /-- Cancelling one query leaves every other query where it was. -/
 theorem cancel_preserves_others (x : Sys) (outs : List Out) (h : Reach x outs) (q q' : Nat)
     (hne : q' ≠ q) : presence (cancel x.s q) q' = presence x.s q' := by
-  sorry
+  have hi := reach_inv h
+  obtain ⟨hA, _, a2, a3, a4, _, _⟩ := cancelA_spec hi q
+  obtain ⟨_, _, b2, b3, b4, _⟩ := cancelW_spec hA q
+  rw [cancel_eq, presence_eq, presence_eq, b2 q' hne, b3, b4, a2 q' hne, a3, a4]
 
 /-- The wantlist is exactly the set of CIDs with at least one waiting query
 (this also discharges the `debug_assert!` in `process_incoming_message`). -/
 theorem wantlist_eq_waiter_keys (x : Sys) (outs : List Out) (h : Reach x outs) (k : Nat) :
     k ∈ x.s.wantlist.cids ↔ ∃ qs, x.s.waiters[k]? = some qs ∧ qs ≠ [] := by
-  sorry
+  have hi := reach_inv h
+  exact hi.want_iff k
 
 /-- The gate of `process_incoming_message`: a block for a CID that is not wanted changes nothing
 (no event, no store write, no exchange-state change). -/
 theorem unwanted_block_inert (s : State) (p k d : Nat) (acc : List (Nat × Nat))
     (h : k ∉ s.wantlist.cids) : applyBlock s p k d acc = (s, acc) := by
-  sorry
+  exact applyBlock_unwanted s p k d acc h
 
 /-- A wanted block answers exactly the queries waiting for that CID, with that data, removes the
 want, and is scheduled for storing under that CID. -/
@@ -95,31 +171,104 @@ theorem wanted_block_answers (s : State) (p k d : Nat) (acc : List (Nat × Nat))
     (applyBlock s p k d acc).2 = acc ++ [(k, d)] ∧
     (applyBlock s p k d acc).1.queue = s.queue ++ ((s.waiters[k]?).getD []).map (fun q => Out.resp q d) ∧
     k ∉ (applyBlock s p k d acc).1.wantlist.cids ∧ (applyBlock s p k d acc).1.waiters[k]? = none := by
-  sorry
+  obtain ⟨e0, e1, e2, e3, _⟩ := applyBlock_wanted s p k d acc h
+  refine ⟨e0, e1, ?_, ?_⟩
+  · rw [e2]; simp
+  · rw [e3]; simp
 
 /-! ### C13 (client part) -/
 
 /-- Abort handles are kept only for queries whose lookup is still running. -/
 theorem abort_released (x : Sys) (outs : List Out) (h : Reach x outs) (q : Nat)
     (hq : q ∈ x.s.abort) : ∃ t ∈ x.s.tasks, isLiveGet q t = true := by
-  sorry
+  have hi := reach_inv h
+  rw [ExtTreeMap.mem_iff_isSome_getElem?] at hq
+  cases ha : x.s.abort[q]? with
+  | none => rw [ha] at hq; cases hq
+  | some tid =>
+    obtain ⟨t, ht, _, hl⟩ := hi.abort_task q tid ha
+    exact ⟨t, ht, hl⟩
 
 /-- Everything about a peer is dropped when its last connection closes. -/
 theorem client_drop_on_last_close (s : State) (p c : Nat) (ps : PeerSt)
     (h : s.peers[p]? = some ps) (hl : ∀ c', c' ∈ ps.conns → c' = c) :
     (closed s p c).peers[p]? = none := by
-  sorry
+  unfold closed
+  rw [h]
+  have hemp : (ps.conns.erase c).isEmpty = true := by
+    rw [ExtTreeSet.isEmpty_iff, ExtTreeSet.eq_empty_iff_forall_not_mem]
+    intro a ha
+    rw [ExtTreeSet.mem_erase] at ha
+    have := hl a ha.2
+    subst this
+    simp at ha
+  simp [hemp]
 
 /-- Waiter lists never hold a query twice and never are empty; a query waits for at most one CID. -/
 theorem waiters_wellformed (x : Sys) (outs : List Out) (h : Reach x outs) (k : Nat) (qs : List Nat)
     (hk : x.s.waiters[k]? = some qs) : qs ≠ [] ∧ qs.Nodup := by
-  sorry
+  have hi := reach_inv h
+  refine ⟨hi.nonempty k qs hk, List.nodup_iff_count.2 ?_⟩
+  intro q
+  have h1 := count_le_wsum _ _ _ q hk
+  have h2 := hi.bound q
+  rw [presence_eq] at h2
+  omega
 
 /-- When no query is live and no peer is connected, the client retains nothing but blocks waiting
 to be handed to the server half. -/
 theorem retained_released (x : Sys) (outs : List Out) (h : Reach x outs)
     (hq : ∀ q, presence x.s q = 0) (hp : x.s.peers.isEmpty = true) (ht : x.s.tasks = []) :
     retained x.s = x.s.newBlocks.length := by
-  sorry
+  have hi := reach_inv h
+  have hqueue : x.s.queue = [] := by
+    cases hqq : x.s.queue with
+    | nil => rfl
+    | cons o os =>
+      obtain ⟨q, hq1⟩ := hi.queue_ev o (by simp [hqq])
+      have := hq q
+      rw [presence_eq, hqq] at this
+      have : 0 < eventsFor (o :: os) q := by
+        unfold eventsFor
+        apply List.length_pos_of_mem (a := o)
+        simp [hq1]
+      omega
+  have hwait : x.s.waiters = ∅ := by
+    rw [ExtTreeMap.eq_empty_iff_forall_not_mem]
+    intro k hk
+    rw [ExtTreeMap.mem_iff_isSome_getElem?] at hk
+    cases hw : x.s.waiters[k]? with
+    | none => rw [hw] at hk; cases hk
+    | some qs =>
+      have hne := hi.nonempty k qs hw
+      cases qs with
+      | nil => exact hne rfl
+      | cons q qs' =>
+        have h1 := count_le_wsum _ _ _ q hw
+        have h2 := hq q
+        rw [presence_eq] at h2
+        simp at h1
+        omega
+  have hcids : x.s.wantlist.cids = ∅ := by
+    rw [ExtTreeSet.eq_empty_iff_forall_not_mem]
+    intro k hk
+    obtain ⟨qs, h1, _⟩ := (hi.want_iff k).1 hk
+    rw [hwait] at h1
+    simp at h1
+  have habort : x.s.abort = ∅ := by
+    rw [ExtTreeMap.eq_empty_iff_forall_not_mem]
+    intro q hq'
+    rw [ExtTreeMap.mem_iff_isSome_getElem?] at hq'
+    cases ha : x.s.abort[q]? with
+    | none => rw [ha] at hq'; cases hq'
+    | some tid =>
+      obtain ⟨t, htm, _⟩ := hi.abort_task q tid ha
+      rw [ht] at htm; cases htm
+  have hpeers : x.s.peers = ∅ := ExtTreeMap.isEmpty_iff.1 hp
+  have e1 : (∅ : KMap (List Nat)).toList = [] := ExtTreeMap.toList_eq_nil_iff.2 rfl
+  have e2 : (∅ : KMap PeerSt).toList = [] := ExtTreeMap.toList_eq_nil_iff.2 rfl
+  unfold retained
+  rw [hqueue, hwait, hcids, habort, hpeers, ht, e1, e2]
+  simp
 
 end Beetswap.Proofs.ClientQuery
